@@ -165,6 +165,9 @@ V("O12.arms", ["C12", "C02", "C03", "C05"], "c12_calls", expect_verified=3,
 V("O12.4", ["C12", "C02", "C05", "C11"], "c12_callsite", expect_verified=8,
   functions=["Compiler::compile_expression arms Expr::Call, Expr::Array, Expr::Index, Expr::Prefix, Expr::Bool, Expr::Int", "Compiler::compile_statement arms Stmt::Expr, Stmt::Return"],
   desc="call site: arguments compiled left to right, then the callee (or the builtin's byte), argc == argument count <= 255; array elements left to right + count; index: target, index, IndexGet; prefix operators; literals (Int constant slot holds the literal, out-of-range literal is an error with nothing emitted); expression statement ends in Pop; antwoord outside a function is a SyntaxError with nothing emitted")
+V("O02.blocks", ["C02", "C09", "C12", "C11", "C05"], "c02_blocks", expect_verified=2,
+  functions=["Compiler::compile_block_statement", "Compiler::compile_expression arm Expr::Function"],
+  desc="blocks: an empty block is one Null; every statement of a non-empty block is compiled in order, back to back, ONE SCOPE DEEPER, depth restored (names cease to exist at block end). Function definitions: jumped over; the body ALWAYS ends in ReturnValue / Return (control cannot run off its end); entry point = first byte of the body; slot count from the symbol table; body compiled in a fresh function context with parameters declared first and no enclosing loop visible (both restored); a named function is declared before its body and stored in its slot")
 K("O12.2k", ["C12", "C02"], "vm", "c12_call_twin", level="bounded", bound="1 argument, callee with 0..=3 slots, two caller slots", needs_fmt_stub=True,
   functions=["VM::run arm Call (compiled verbatim as a method, registry.TWINS)"], desc="bounded twin of the Call contract on the real arm text whatever its syntactic form")
 for _n in range(3):
@@ -315,9 +318,9 @@ PROPERTIES = {
     "C12": {
         "level": "proof",
         "claim": "Per-arm contracts, verified by Verus on the arms of VM::run sliced verbatim from src/vm.rs for stacks / frame stacks of EVERY size: Call binds arguments by position in a fresh activation whose other slots are null and leaves everything below the base untouched; Return/ReturnValue hand back exactly the caller's stack plus the result and restore the caller's ip/bp. Function descriptors round-trip for all (u32,u16) (Kani).",
-        "note": "Trusted: Verus/Z3; helper contracts read_u8/pop (proved by Kani on the real methods, bounded code/stack size), extraction rules R1,R2,R3,R4,R7,R10. The compiler's call-site arm (arguments left to right, then the callee, argc == count) is proved too (unit c12_callsite). NOT decided: the Expr::Function arm and the composition over whole programs (recursion depth, nested calls) - argued from the arm contracts, not verified.",
+        "note": "Trusted: Verus/Z3; helper contracts read_u8/pop (proved by Kani on the real methods, bounded code/stack size), extraction rules R1,R2,R3,R4,R7,R10. The compiler's call-site arm (arguments left to right, then the callee, argc == count) is proved too (unit c12_callsite). The Expr::Function arm (unit c02_blocks) proves the body is jumped over, always ends in a return instruction, runs in a fresh context and that the descriptor's entry point is the body's first byte. NOT decided: the composition over whole programs (recursion depth, nested calls) - argued from the arm contracts, not verified.",
         "design_ref": "DESIGN.md 3.6",
-        "undecided": ["composition of arm contracts over all call sequences (step lemma)", "Expr::Function arm (parameter slots, num_locals, jump over the body)"],
+        "undecided": ["composition of arm contracts over all call sequences (step lemma)"],
         "assumptions": ["arm preconditions (operands on the stack, operand bytes inside the code) hold at every step: the compile-side half of C02"],
     },
     "C02": {
